@@ -118,13 +118,15 @@ def run(ctx):
                 'handleYAMLError vs actionlint.Parse on unparsable YAML', ordered=True)
     n3, b3 = _k(ctx, 'C01e', imports, '(flag_outcome * bool * bool * nat)', 'run_exit', os.path.join(ctx.out, 'cases_exit.txt'),
                 'exit status vs Command.Main')
+    n4, b4 = _k(ctx, 'C01c', ['Wf.CronGuard'], 'string', 'run_cron', os.path.join(ctx.out, 'cases_cron.txt'),
+                'cron specs: the library panics / the rule passes on, reports, panics', ordered=True)
     if n1 == 0:
         ctx.broken.append('correspondence C01: no scalar-position case was produced')
     ctx.coverage.update({
         'obligations': nthm, 'discharged': ndis,
         'evaluations': s['evaluations'], 'distinct_nontrivial': s['distinct_nontrivial'],
         'rule': s['rule'], 'samples': s['samples'], 'distribution': s['distribution'],
-        'traces_validated_against_impl': n1 + n2 + n3, 'disagreements': b1 + b2 + b3,
+        'traces_validated_against_impl': n1 + n2 + n3 + n4, 'disagreements': b1 + b2 + b3 + b4,
         'exhaustive': False, 'search': s.get('extra', {}),
     })
     inv = panic_site_inventory(vf.REPO)
